@@ -730,6 +730,8 @@ class Executor:
             res_t = res
         if callee is None:
             kind, which = indirect_kind(ins)
+            if kind == "alloc" and ins.type != "void":
+                res_t = ("call", which, ins.id, res[3])
             ev = Event("call", ins, f, actuals, res_t, len(st.facts), which if kind != "callback" else "callback#%s" % which,
                        kind, dict(pointee=pointee), depth)
             st.events.append(ev)
